@@ -1,10 +1,11 @@
 use crate::css::Value;
 use crate::output::{Format, Formatted};
 use crate::value::{Number, Numeric};
+use std::cmp::Ordering;
 use std::fmt::{self, Display};
 
 /// A color defined by hue, saturation, luminance, and alpha.
-#[derive(Clone, Debug, PartialEq, PartialOrd)]
+#[derive(Clone, Debug)]
 pub struct Hsla {
     hue: f64,
     sat: f64,
@@ -77,6 +78,27 @@ impl Hsla {
             value: self,
             format,
         }
+    }
+}
+
+impl PartialEq for Hsla {
+    fn eq(&self, other: &Self) -> bool {
+        // ignores hsla_format!
+        self.hue == other.hue
+            && self.sat == other.sat
+            && self.lum == other.lum
+            && self.alpha == other.alpha
+    }
+}
+impl PartialOrd for Hsla {
+    fn partial_cmp(&self, other: &Self) -> Option<Ordering> {
+        // ignores hsla_format!
+        (self.hue, self.sat, self.lum, self.alpha).partial_cmp(&(
+            other.hue,
+            other.sat,
+            other.lum,
+            other.alpha,
+        ))
     }
 }
 
